@@ -17,7 +17,8 @@ package main
 //     sorted(set|map, cmp) with ties against the model's stable sort of the ordered listing.
 //  D. configuration probes (denylist, global names, shuffled option order), law-based; D2: module globals
 //     whose module names differ from / collide with the global names, against the model's import cache.
-//  E. every callable x (map | mixed set | float set) at every argument position, evaluated repeatedly.
+//  E. every callable x (map | mixed set | float set | list of objects without String()) at every argument position, evaluated repeatedly.
+//  F. (c05render.go) object graphs of every object type rendered through every printing route against the Lean render model.
 
 import (
 	"bufio"
@@ -675,7 +676,11 @@ func c05Observe(src string) (o c05Obs) {
 		o.Code = hex.EncodeToString(h[:])
 		o.Shape = c05_codeShape(code)
 	}()
-	out := EvalSrc(src, 5*time.Second)
+	var opts []risor.Option
+	if strings.HasPrefix(src, c05_renderMarker) {
+		opts = c05_renderOpts() // stream F: spawn() available, host-built objects as globals
+	}
+	out := EvalSrc(src, 5*time.Second, opts...)
 	o.Value, o.Err, o.Stdout = out.Value, out.Err, out.Stdout
 	return
 }
@@ -730,7 +735,7 @@ func c05RunChildren(srcs []string, n int) [][]c05Obs {
 	return out
 }
 
-var c05LocalNames = regexp.MustCompile(`\b(qf|qg|qh|qb|qe|qi|qj|qn|qo|qt|qu)\b`)
+var c05LocalNames = regexp.MustCompile(`\b(qf|qg|qh|qb|qe|qi|qj|qn|qo|qt|qu|qc|qy)\b`)
 
 // prelude pieces.  big = contains a map literal with >= 2 entries (outside the guard).
 type c05Piece struct {
@@ -793,6 +798,11 @@ func c05Prelude(r *RNG, allowBig bool) (string, bool, []string) {
 			add("float-set", false, "qu := {2.5, 0.5, 1.5, %d.25, %d.75, (-1.5)}\nfor k, v := range qu { print(k, v) }\nprint(qu, list(qu), string(qu), math.sum(list(qu)), json.marshal(list(qu)), qu.union({9.5, 8.5}))", pos(), pos())
 		case 18:
 			add("containers-as-arguments", false, "print(list(qs), list(qm), set(qm), set(list(qs)), reversed(list(qs)), chunk(list(qs), 2), strings.join(list(qm), \"-\"), sprintf(\"%%v\", list(qs)))")
+		case 19:
+			// objects without a String() method through every formatting builtin
+			add("print-chan-entry", false, "qc := chan(%d)\nqy := iter(qm)\nqy.next()\nprint(qc, qy.entry(), [qc, qy.entry()], sprintf(\"%%v %%s\", qc, qy.entry()), string(errorf(\"e %%v\", qc)), string(qc), '{qc} {qy.entry()}')", pos()%4)
+		case 20:
+			add("print-iterators-callables", false, "print(iter(qs), iter(qm), iter(3), iter(\"ab\"), [len, math, qm.keys, func(a, b=1) { return a }], sprintf(\"%%v|%%v|%%v\", len, math, iter(qs)), string(errors.new(\"n %%v %%v\", chan(), iter([chan(1)]))))")
 		}
 		if !allowBig {
 			continue
@@ -1008,6 +1018,16 @@ func c05General(e *Env, n, reps, children int) {
 			e.R.H("general_compile_errors", msg[:min(60, len(msg))])
 		}
 		c05Compare(e, p, obs, "in-process")
+		// no observable text may contain a Go pointer (the generator writes no 0x… literal)
+		if !strings.Contains(p.src, "0x") {
+			for _, t := range []string{obs[0].Value, obs[0].Err, obs[0].Stdout} {
+				if m := c05_ptrPattern.FindString(t); m != "" {
+					e.R.H("general_pointer_text", "found")
+					e.R.Spec(p.src, fmt.Sprintf("the result, error text or stdout contains a Go pointer (%s): value=%q err=%q stdout=%q", m, obs[0].Value, obs[0].Err, obs[0].Stdout), "")
+					break
+				}
+			}
+		}
 		all := []c05Obs{obs[0]}
 		for _, k := range kids {
 			if k != nil {
@@ -2140,12 +2160,14 @@ var c05_containerDefs = map[string]string{
 	"cs":  "cs := {2.5, 1.5, 0.5, 1, 1.0, \"a\", \"b\", true, nil, 10.5}\n",
 	"cf":  "cf := {2.5, 1.5, 0.5, 10.5, 3.0, (-1.5)}\n",
 	"cmp": "cmp := func(a, b) { return len(string(a)) < len(string(b)) }\n",
+	// objects without a String() method, a builtin and an iterator inside a list (their printed form must not be an address)
+	"co": "co := [chan(1), func() { it := iter([\"x\"]); it.next(); return it.entry() }(), len, iter({2}), chan()]\n",
 }
 
 func c05_argScript(callee string, args []string) string {
 	call := callee + "(" + strings.Join(args, ", ") + ")"
 	var sb strings.Builder
-	for _, name := range []string{"cm", "cs", "cf", "cmp"} {
+	for _, name := range []string{"cm", "cs", "cf", "cmp", "co"} {
 		if regexp.MustCompile(`\b` + name + `\b`).MatchString(call) {
 			sb.WriteString(c05_containerDefs[name])
 		}
@@ -2161,7 +2183,7 @@ func c05_argScript(callee string, args []string) string {
 func c05BuiltinArgs(e *Env, reps int) {
 	fillers := []string{"0", "\"json\"", "cmp", "[1, 2]", "cm"}
 	for _, callee := range c05_callables {
-		for _, c := range []string{"cm", "cs", "cf"} {
+		for _, c := range []string{"cm", "cs", "cf", "co"} {
 			forms := [][]string{{c}}
 			for _, f := range fillers {
 				forms = append(forms, []string{c, f}, []string{f, c})
@@ -2193,7 +2215,23 @@ func c05BuiltinArgs(e *Env, reps int) {
 				e.R.H("callable_args_outcome", cls)
 				if varied != "" {
 					e.R.H("callable_args_varied", callee)
-					e.R.Spec(src, "evaluations of the same script differ: "+varied, "")
+					finding := ""
+					if callee == "error" && c == "co" && first.Value == "" && first.Stdout == "" && c05_ptrPattern.MatchString(first.Err) {
+						finding = c05_fErrFmt
+					}
+					e.R.Spec(src, "evaluations of the same script differ: "+varied, finding)
+				}
+				for _, t := range []string{first.Value, first.Err, first.Stdout} {
+					if m := c05_ptrPattern.FindString(t); m != "" {
+						e.R.H("callable_args_pointer_text", callee)
+						finding := ""
+						if callee == "error" && c == "co" && first.Value == "" && first.Stdout == "" {
+							// error(fmt, …, co): Interface() of the channels and of the builtin inside co (known finding)
+							finding = c05_fErrFmt
+						}
+						e.R.Spec(src, fmt.Sprintf("the result, error text or stdout contains a Go pointer (%s): value=%q err=%q stdout=%q", m, first.Value, first.Err, first.Stdout), finding)
+						break
+					}
 				}
 			}
 		}
@@ -2406,9 +2444,15 @@ func c05_runC05(e *Env) {
 		"+-Inf/denormals/NaN, string, bool, nil, byte, byte_slice; a third of them floats only) read through SortedItems/Inspect/Iter/List against " +
 		"sortedItems/iterItems over full hash keys; C3: sorted(set|map, cmp) scripts whose cmp produces ties (by type, by len, by integer part, " +
 		"constant false) and sorted(set) over ints and equal floats against sortedBuiltin; E: a 6-entry map, a mixed set and a float set at every " +
-		"argument position (arity 1-2) of 72 builtins/module functions/methods next to a number, a string, a list, a map and a tie-producing " +
+		"argument position (arity 1-2) of 72 builtins/module functions/methods (plus a list of channels, an iterator entry, a builtin and an iterator) next to a number, a string, a list, a map and a tie-producing " +
 		"comparison function, each script evaluated repeatedly; D: denylist configurations; D2: host globals holding modules whose own names " +
-		"differ from / collide with the globals' names, imported by every name, against moduleCache. A case is one program / one probe input; " +
+		"differ from / collide with the globals' names, imported by every name, against moduleCache; F: object graphs of depth 1-4 over every " +
+		"object type a script or a host can produce (scalars, strings with quotes/newlines/0x…, errors, time, byte_slice, float_slice, buffer, functions with " +
+		"defaults, closures, builtins, bound methods, modules, channels, int/slice/list/map/set iterators, iterator entries, threads, host-built partials, " +
+		"cells, dynamic attributes, nested in lists, maps, sets) rendered by one script through print, printf, fmt.println, sprintf %v/%s, fmt.sprintf, " +
+		"string(), interpolation, inside a list and a map, errorf, errors.new, error() and directly through Inspect()/PrintableValue, every text compared " +
+		"with the model's render (addresses chosen by the harness) and evaluated repeatedly in fresh VMs and fresh processes; no text may contain a Go " +
+		"pointer; module-defined and OS-backed objects and error messages about such objects by repetition and the pointer rule only. A case is one program / one probe input; " +
 		"distinct by its text; non-trivial when it contains a map/set literal, a default argument or a map/set iteration (all A and B programs do), " +
 		"or, for probes, when the map has >= 2 entries. 7 of 8 programs stay inside the guard NoBigMap."
 	nFrag, nGen, reps, kids, nSite := 500, 160, 8, 4, 150
@@ -2417,6 +2461,8 @@ func c05_runC05(e *Env) {
 	}
 	// the targeted probes run first: their cases are the smallest, and the first violation recorded
 	// becomes the replay
+	c05Render(e, nSite*2, reps, kids)
+	c05RenderOpaque(e, reps)
 	c05SiteSorted(e, nSite)
 	c05SiteSetOrder(e, nSite*2, reps*2)
 	c05SiteSetNaNScript(e, reps*4)
